@@ -634,6 +634,21 @@ def _no_consumer_cache(run, P):
                         if any(k_ in v for k_ in SOURCES) or any(
                                 isinstance(y, ast.Name) and y.id in tainted for y in ast.walk(x.value)):
                             bad.append((meth, x))
+            # a table that is emptied wherever the manager's local map is reset lives exactly
+            # as long as the answers it holds
+            resets = [meth for meth in c.methods.values()
+                      if any(isinstance(x, ast.Call) and (dotted(x.func) or "").endswith("_name_manager.clear_locals")
+                             for x in ast.walk(meth.node))]
+
+            def emptied(meth, table):
+                return any((isinstance(x, ast.Call) and isinstance(x.func, ast.Attribute)
+                            and x.func.attr == "clear" and dotted(x.func.value) == table)
+                           or (isinstance(x, ast.Assign) and isinstance(x.value, ast.Dict) and not x.value.keys
+                               and any(dotted(t) == table for t in x.targets))
+                           for x in ast.walk(meth.node))
+            bad = [(meth, x) for meth, x in bad
+                   if not (resets and all(emptied(r_, dotted(t.value)) for r_ in resets
+                                          for t in x.targets if isinstance(t, ast.Subscript)))]
             n += 1
             run.ob("C13.memo", c, bad[0][1] if bad else c.node, not bad,
                    construct=f"{c.name} keeps no table of identifiers it obtained from the name manager"
